@@ -59,14 +59,17 @@ CHECKS['C09'] = dict(
 
 CHECKS['C13'] = dict(
     category='other',
-    technique='dominance + derived-from guard analysis on MIR (three necessary-condition rules); no step bound is claimed',
+    technique='dominance + derived-from guard analysis on MIR (guard rules) plus, from the E2 abstract interpreter, two construction relations and a ranking-function obligation for the suffix scans; no overall step bound is claimed',
     text="Step counts are a runtime quantity and no static bound on them is in reach, so this check decides only the three "
          "guards whose removal makes the work super-linear: LIN-1 the memcmp-confirming vector searcher is built only "
          "under needle.len() <= K for a constant K < 4096 that is the same in all configurations; LIN-2 every call of "
          "the quadratic Rabin-Karp searcher from the memmem layer is dominated by a constant length bound (or by "
          "haystack.len() < min_haystack_len()); LIN-3 the adaptive prefilter shut-off exists, its thresholds are "
-         "constants, and every prefilter call in Two-Way is dominated by is_effective(). It does NOT decide linearity "
-         "of Two-Way (period memory) or of preprocessing and gives no constant.",
+         "constants, and every prefilter call in Two-Way is dominated by is_effective(); LIN-4 (E2) every constructed "
+         "large-period shift is >= len/2 and every constructed vector searcher has its needle length capped by some constant; "
+         "LIN-5 (E2) the maximal/minimal-suffix scans of Two-Way's preprocessing have a potential (2*pos + candidate_start + "
+         "offset) that strictly increases in every iteration and is bounded by 3*len -- a linear-work proof for that loop. "
+         "It does NOT decide linearity of the Two-Way search loops themselves (period memory) and gives no overall constant.",
     note=TB + "these are necessary conditions only; the property's bound on executed steps itself is not decided (DESIGN section 7).",
     design_ref='5/C13')
 CHECKS['C10'] = dict(
